@@ -452,8 +452,10 @@ impl ContinuityStore {
         let index = load_index(&index_path(&data_dir)).unwrap_or_default();
         let (sender, _receiver) = broadcast::channel(EVENT_CHANNEL_CAPACITY);
         let stream_cache = ContinuityStreamCache::new(&data_dir);
-        // Crash recovery: continuity appends are serialized, so only the last continuity frame in
-        // the log can be missing from its caches.
+        // Crash recovery: a cache family that was being updated when the previous authority died
+        // is dropped; and since continuity appends are serialized, only the last continuity frame
+        // in the log can be missing from caches that were not being updated yet.
+        stream_cache.drop_dirty_families_best_effort();
         if let Some(event) = last_continuity_frame_in_log_tail(&data_dir.join("events.jsonl")) {
             stream_cache.remove_if_lagging_best_effort(&event);
         }
